@@ -210,8 +210,10 @@ CLAIMED = {
              'with and without the stl, under a watchdog; the spec is evaluated on every real assembly.',
         design_ref='DESIGN.md section 4, C14',
         note='partial: sly\'s lexer and LALR driver are exercised, not modelled; depth, count and bit limits are model '
-             'parameters and the generators avoid the bands where CPython stack or memory state decides; guards = known findings '
-             'F10, F9b, N2, N3, N4, N6; F7, F8, F9, N1, N5 fixed.',
+             'parameters and the generators avoid the bands where CPython stack or memory state decides; guards of C14_specific = '
+             'known findings F10 (expression depth) and F9b/N6 (counts too large to materialise) plus the parser-output fact '
+             'has_main; C14_catch_all_classes: only RecursionError and MemoryError can reach the catch-all; F7, F8, F9, N1-N5 '
+             'fixed.',
         technique='Coq theorems on an assembly-pipeline error model + error-class generators / mutation campaign with the spec on real runs'),
     'C15': dict(
         category='proof',
